@@ -454,9 +454,41 @@ func (f *hvFile) occ(s string, exp J) {
 }
 func (f *hvFile) text() string { return strings.Join(f.lines, "\n") + "\n" }
 
+type hvPrev struct {
+	coef string // unsigned
+	exp  int
+	neg  bool
+	com  string // commodity as written (with quotes), "" for none
+	left bool
+}
+
 type hvPools struct {
 	accounts, payees, tagNames, tagValues, dropNames []string
 	lcomm, rcomm                                    []string
+	prev                                            []hvPrev
+}
+
+// hvPlain re-prints an unsigned decimal coef*10^exp in plain notation (`1234.5`), sometimes with
+// extra trailing zeros; never in the shape side condition A reads as a grouped integer.
+func hvPlain(r *rand.Rand, coef string, exp int) string {
+	if exp >= 0 {
+		if coef == "0" {
+			return "0"
+		}
+		return coef + strings.Repeat("0", exp)
+	}
+	k := -exp
+	for len(coef) <= k {
+		coef = "0" + coef
+	}
+	ip, fp := coef[:len(coef)-k], coef[len(coef)-k:]
+	if r.IntN(3) == 0 {
+		fp += strings.Repeat("0", 1+r.IntN(2))
+	}
+	if len(fp) == 3 && strings.Trim(ip, "0") != "" {
+		fp += "0"
+	}
+	return ip + pick(r, []string{".", ","}) + fp
 }
 
 func newHvPools(r *rand.Rand) *hvPools {
@@ -577,12 +609,10 @@ func hvNumber(c *Ctx) (text, coef string, exp int) {
 		}
 	}
 	ambiguous := func(t string) bool {
-		// side condition A: exactly one mark, exactly three digits after it, non-zero integer part
-		body := t
-		if i := strings.IndexAny(body, "Ee"); i >= 0 {
-			body = body[:i]
-		}
-		body = strings.ReplaceAll(body, " ", "")
+		// side condition A: exactly one mark, exactly three digits after it, non-zero integer part.
+		// The parser applies the rule to the characters after the mark, exponent included
+		// (`9.3E1` is read as 930: a C03 matter, see report), so those shapes are avoided too.
+		body := strings.ReplaceAll(t, " ", "")
 		marks := strings.Count(body, ",") + strings.Count(body, ".")
 		if marks != 1 {
 			return false
@@ -592,8 +622,8 @@ func hvNumber(c *Ctx) (text, coef string, exp int) {
 	}
 	fp := digits(r, fracLen, false)
 	text = build(fp)
-	if fracLen == 3 && ambiguous(text) {
-		fracLen = 4
+	for tries := 0; ambiguous(text) && fracLen > 0; tries++ {
+		fracLen = 4 + tries
 		fp = digits(r, fracLen, false)
 		e = 0
 		text = build(fp)
@@ -611,6 +641,33 @@ func hvNumber(c *Ctx) (text, coef string, exp int) {
 // see report); such amounts are only generated at the end of the posting.
 func hvAmount(c *Ctx, pl *hvPools, followed bool) (text string, val J) {
 	r := c.R
+	if len(pl.prev) > 0 && r.IntN(5) == 0 {
+		// the negation of an amount written earlier in this scenario, in plain notation:
+		// sums that cancel to zero within a file and across files
+		pv := pick(r, pl.prev)
+		ok := !followed || pv.com == "" || pv.left || pv.com[0] == '"' || (pv.com[0] >= 'A' && pv.com[0] <= 'Z')
+		if ok {
+			c.Count("amt.negation-of-earlier")
+			num := hvPlain(r, pv.coef, pv.exp)
+			sign := "-"
+			if pv.neg {
+				sign = pick(r, []string{"", "+"})
+			}
+			coef := pv.coef
+			if sign == "-" && coef != "0" {
+				coef = "-" + coef
+			}
+			switch {
+			case pv.com == "":
+				text = sign + num
+			case pv.left:
+				text = pv.com + " " + sign + num
+			default:
+				text = sign + num + " " + pv.com
+			}
+			return text, J{"c": coef, "e": pv.exp, "com": hx(strings.Trim(pv.com, "\""))}
+		}
+	}
 	num, coef, exp := hvNumber(c)
 	sign := ""
 	switch r.IntN(6) {
@@ -623,6 +680,12 @@ func hvAmount(c *Ctx, pl *hvPools, followed bool) (text string, val J) {
 		coef = "-" + coef
 	}
 	com := ""
+	comTok, comLeft := "", false
+	defer func() {
+		if len(pl.prev) < 12 {
+			pl.prev = append(pl.prev, hvPrev{coef: strings.TrimPrefix(coef, "-"), exp: exp, neg: sign == "-", com: comTok, left: comLeft})
+		}
+	}()
 	switch r.IntN(5) {
 	case 0:
 		c.Count("amt.nocommodity")
@@ -630,6 +693,7 @@ func hvAmount(c *Ctx, pl *hvPools, followed bool) (text string, val J) {
 	case 1, 2:
 		c.Count("amt.left")
 		lc := pick(r, pl.lcomm)
+		comTok, comLeft = lc, true
 		com = strings.Trim(lc, "\"")
 		sp := ""
 		if len(lc) > 1 && lc[0] != '"' && lc[0] < 0x80 || r.IntN(3) == 0 {
@@ -649,6 +713,7 @@ func hvAmount(c *Ctx, pl *hvPools, followed bool) (text string, val J) {
 		if followed && !(rc[0] == '"' || rc[0] >= 'A' && rc[0] <= 'Z') {
 			rc = pick(r, []string{"EUR", "USD", "AAPL", "BTC"})
 		}
+		comTok = rc
 		com = strings.Trim(rc, "\"")
 		sp := " "
 		last := num[len(num)-1]
@@ -987,7 +1052,7 @@ func relInclude(from, to string) string {
 }
 
 func genC20Hover(c *Ctx) {
-	n := c.N(110, 1500)
+	n := c.N(350, 4000)
 	for s := 0; s < n; s++ {
 		hvScenario(c)
 	}
